@@ -44,6 +44,27 @@ MUTANTS = [
      "    if False:\n        raise UnrelateException"),
     ('C02', 'second-delete-silent', 'xtuml/meta.py',
      '            raise DeleteException("Instance not found in the instance pool")', "            return"),
+    ('C09', 'whereeq-break-continue', 'xtuml/meta.py',
+     "                if getattr(inst, name) != value:\n                    break",
+     "                if getattr(inst, name) != value:\n                    continue"),
+    ('C09', 'orderby-ignores-reverse', 'xtuml/meta.py',
+     "        return sorted(s, key=key, reverse=self.reverse)", "        return sorted(s, key=key)"),
+    ('C09', 'reverse-not-stable', 'xtuml/meta.py',
+     "        return sorted(s, key=key, reverse=self.reverse)",
+     "        r = sorted(s, key=key)\n        return r[::-1] if self.reverse else r"),
+    ('C09', 'navchain-returns-list', 'xtuml/meta.py',
+     "        handle = apply_query_operators(handle, args)\n        if isinstance(handle, QuerySet):\n            return handle\n        else:\n            return QuerySet(handle)",
+     "        handle = apply_query_operators(handle, args)\n        return list(handle)"),
+    ('C09', 'two-hop-keeps-last-only', 'xtuml/meta.py',
+     "            inst_set |= link2.navigate(inst)", "            inst_set = link2.navigate(inst)"),
+    ('C09', 'select-one-with-order-unsorted', 'xtuml/meta.py',
+     "        s = apply_query_operators(self.storage, args)\n        return next(iter(s), None)",
+     "        s = apply_query_operators(self.storage, [a for a in args if not isinstance(a, OrderBy)])\n        return next(iter(s), None)"),
+    ('C09', 'dict-filter-ignored', 'xtuml/meta.py',
+     "            iterable = WhereEqual(op)(iterable)", "            pass"),
+    ('C09', 'subtype-first-link-only', 'xtuml/meta.py',
+     "        subtype = navigate_one(supertype).nav(kind, rel_id)()\n        if subtype:\n            return subtype",
+     "        return navigate_one(supertype).nav(kind, rel_id)()"),
 ]
 
 
